@@ -47,6 +47,7 @@ func init() {
 	register("C09", "exploration", 4, 16, 40, 500, 6*time.Minute, 40*time.Minute, eng.RunUsable)
 	register("C11", "exploration", 2, 8, 300, 5000, 4*time.Minute, 30*time.Minute, eng.RunCorr)
 	register("C19", "exploration", 2, 8, 1000, 100000, 5*time.Minute, 30*time.Minute, eng.RunSorters)
+	register("C14", "exploration", 2, 8, 500, 20000, 5*time.Minute, 30*time.Minute, eng.RunConfigs)
 	register("C18", "exploration", 4, 16, 4, 40, 8*time.Minute, 60*time.Minute, eng.RunResidue)
 }
 
